@@ -328,6 +328,8 @@ def _conj_value(v):
     C = alg.ctx()
     if C.imag is None:
         return v
+    if type(v) is not Value:
+        return alg.map_terms(v, _conj_value)
     s = C.imag
     n = {}
     for m, c in v.n.items():
@@ -340,6 +342,8 @@ def _re_im(v, want_im):
     C = alg.ctx()
     if C.imag is None:
         return Value({}) if want_im else v
+    if type(v) is not Value:
+        return alg.map_terms(v, lambda t: _re_im(t, want_im))
     s = C.imag
     n = {}
     for m, c in v.n.items():
@@ -881,7 +885,7 @@ def exact_factorial2(n, exact=False):
         return r
 
     if _np.ndim(n) == 0:
-        return _np.float64(f(n)) if isinstance(n, _np.ndarray) else f(n)
+        return _np.array(float(f(n))) if isinstance(n, _np.ndarray) else f(n)
     arr = _np.asarray(n)
     out = _np.empty(arr.shape, dtype=float)
     of = out.reshape(-1)
@@ -896,7 +900,8 @@ def exact_factorial(n, exact=False):
         return math.factorial(k) if k >= 0 else 0
 
     if _np.ndim(n) == 0:
-        return f(n)
+        # a symbolic constant, so that quotients such as 1/(2**m * l!) stay exact
+        return Sym("k", f(n))
     arr = _np.asarray(n)
     out = _np.empty(arr.shape, dtype=object)
     of = out.reshape(-1)
